@@ -299,7 +299,21 @@ func (e *env) checkRead(site, line string, key []byte, ver int64, res string, va
 	detail := func() string {
 		return fmt.Sprintf("%s got=%s want=%s keys=%s", line, res, expStr(exp, ev, found), e.keyList())
 	}
-	pred := func(kind string) { out.Pred("C09|"+site+"|"+kind, detail()) }
+	// the signature names whether another written key extends key+"." (the only shape under which
+	// the unchanged code is known to misread); anything else is a different failure
+	shape := "no-key-extends-k-dot"
+	for k := range e.ref {
+		if len(e.ref[k]) > 0 && strings.HasPrefix(k, string(key)+".") {
+			shape = "another-key-extends-k-dot"
+		}
+	}
+	pred := func(kind string) {
+		if kind == "older-value-after-empty-write" || kind == "panic" {
+			out.Pred("C09|"+site+"|"+kind, detail())
+			return
+		}
+		out.Pred("C09|"+site+"|"+kind+"|"+shape, detail())
+	}
 	switch {
 	case res == "panic":
 		pred("panic")
@@ -395,11 +409,19 @@ func (e *env) opTrash(line string, cut int64) {
 			if err == nil {
 				continue
 			}
+			// shape: is k a proper prefix of another written key or the other way round (the only
+			// shape under which the unchanged code is known to collect too much)?
+			shape := "key-set-prefix-free-around-k"
+			for k2 := range e.ref {
+				if k2 != k && len(e.ref[k2]) > 0 && (strings.HasPrefix(k, k2) || strings.HasPrefix(k2, k)) {
+					shape = "k-and-another-key-are-prefix-related"
+				}
+			}
 			if v == newest {
-				out.Pred("C09|Trash|newest-version-of-a-key-removed",
+				out.Pred("C09|Trash|newest-version-of-a-key-removed|"+shape,
 					fmt.Sprintf("%s removed %q@%d keys=%s", line, k, v, e.keyList()))
 			} else if v > cut {
-				out.Pred("C09|Trash|version-newer-than-cut-removed",
+				out.Pred("C09|Trash|version-newer-than-cut-removed|"+shape,
 					fmt.Sprintf("%s removed %q@%d keys=%s", line, k, v, e.keyList()))
 			} else {
 				out.Stat("trash_collected", 1)
